@@ -155,7 +155,9 @@ class PartitionLog:
     @property
     def lso(self):
         if self.open_txn:
-            return min(self.open_txn.values())
+            # Kafka: the first unstable offset is never below the log start (retention that removes the
+            # beginning of an open transaction moves it along)
+            return max(min(self.open_txn.values()), self.log_start)
         return self.next_offset
 
     def records(self):
